@@ -158,6 +158,22 @@ def c_softplus(func, args, kwargs):
     return vec(f)(X)
 
 
+@simple(aten.binary_cross_entropy_with_logits.default)
+def c_bce_logits(func, args, kwargs):
+    """elementwise (1 - y) x + softplus(-x)   (no weights; reduction 'none' only)"""
+    x, y = args[0], args[1]
+    weight = args[2] if len(args) > 2 else kwargs.get("weight")
+    pos_weight = args[3] if len(args) > 3 else kwargs.get("pos_weight")
+    reduction = args[4] if len(args) > 4 else kwargs.get("reduction", 1)
+    if weight is not None or pos_weight is not None or reduction != 0:
+        raise Unsupported("binary_cross_entropy_with_logits with weights / reduction")
+    X, Y = np.broadcast_arrays(A_(x), A_(y))
+    out = np.empty(X.shape, dtype=object)
+    for idx in np.ndindex(*X.shape):
+        out[idx] = (Sym.const(1.0) - Y[idx]) * X[idx] + sym_softplus(-X[idx])
+    return out
+
+
 @simple(aten.softplus_backward.default)
 def c_softplus_bw(func, args, kwargs):
     g, x = A_(args[0]), A_(args[1])
